@@ -352,7 +352,7 @@ class Fn:
 
     def src(self, kn=DEFAULT):
         dfl = getattr(self, "defaults", {})
-        ps = ", ".join(kn.name(p) + (":float" if self.name == "dsp" or kn.annotate or getattr(kn, "annot_params", False) else "")
+        ps = ", ".join(kn.name(p) + (":float" if self.name == "dsp" or kn.annotate else "")
                        + (f" = {dfl[p]}" if p in dfl else "")
                        for p in self.params)
         rt = ""
@@ -390,22 +390,14 @@ class Prog:
                 del EXT_SX["recupd"]
             else:
                 EXT_SX["recupd"] = saved
-        # parameters that the rendered source annotates `:float` (see `src`: programs with parameter-pack calls)
-        binders = " ".join(f"({q} n)" for fn in self.fns for q in fn.params) if self.has_pack_call() else ""
+        # parameters whose type the program text states: a default value (always a number in this generator) types its
+        # parameter — `fn f(a = 4.0) { a(1.0) }` is rejected by the real checker (since the repair of C03-K15)
+        binders = " ".join(f"({q} n)" for fn in self.fns for q in fn.params if q in getattr(fn, "defaults", {}))
         return f"(aprog {body} (binders {binders}) (rets {rets}))".replace("  ", " ")
 
-    def has_pack_call(self):
-        def walk(n):
-            return (n.kind == "call" and len(n.a) > 3 and n.a[3] == "record") or any(walk(ch) for _, ch in children(n))
-        return any(walk(f.body) for f in self.fns + [self.dsp])
-
     def src(self, kn=DEFAULT):
-        if self.has_pack_call() and not getattr(kn, "annot_params", False):
-            # finding C03-K14: a named-argument call whose argument types are still unresolved (parameters of a function
-            # that is never called) panics `type inference failed`; programs with such calls get annotated parameters
-            import copy
-            kn = copy.copy(kn)
-            kn.annot_params = True
+        # (former finding C03-K14 — a named-argument call whose argument types are still unresolved panicked `type inference
+        # failed` — is repaired: programs with such calls no longer get annotated parameters)
         out = []
         for x, e in self.globals:
             out.append(f"let {kn.name(x)} = {src(e, kn)}")
@@ -531,8 +523,11 @@ class Gen:
                 t = self.simple(max(0, d - 2), ctx)
             return Node("delay", n, self.simple(d - 1, ctx), t, self.new_site())
         if k == "self":
-            # `self` always appears as an operand of arithmetic, so that its type is determined where it is used
+            # (former finding C03-K5 — `self` whose type nothing constrains panicked the compiler — is repaired: `self`
+            # appears bare as well as an operand of arithmetic)
             ctx["used_self"][0] = True
+            if r.chance(1, 3):
+                return Node("self")
             return Node("bin", r.pick(["add", "mul", "sub"]), Node("self"), self.simple(d - 1, ctx))
         raise ValueError(k)
 
@@ -540,26 +535,26 @@ class Gen:
         """a direct call of f in one of the surface styles: positional, pipe, tuple pipe, parameter pack with defaults"""
         r = self.r
         dfl = getattr(f, "defaults", {})
-        args = [self.simple(d - 1, ctx) for _ in f.ptypes]
+        nargs = len(f.ptypes)
         style, omitted = "plain", []
-        if getattr(f, "rec", False):
-            args[0] = Node("lit", "%d.0" % r.below(4))          # recursion depth: a small literal
         if self.p.get("call_styles", True) and not getattr(f, "tuple_self", False) and not getattr(f, "rec", False):
             opts = [("plain", 6)]
-            if len(args) == 1:
+            if nargs == 1:
                 opts.append(("pipe", 2))
-            if len(args) >= 2:
+            if nargs >= 2:
                 opts.append(("pipetuple", 1))
-            if len(args) >= 2 and dfl:       # (a one-field pack for a one-parameter function is not accepted: finding C03-K12)
+            if nargs >= 2 and dfl:       # (a one-field pack for a one-parameter function is rejected with a diagnostic)
                 opts.append(("record", 4))
             style = r.weighted(opts)
-        if style == "record":
-            # finding C02-K12: a pack that omits a defaulted parameter passes 0 / garbage for it unless the omitted
-            # parameters are alphabetically first; the generator therefore names every parameter (in any order)
-            omitted = []
-            if self.p.get("omit_defaults", False):
-                omitted = [q for q in f.params if q in dfl and r.chance(1, 2)][:len(f.params) - 1]
-            args = [Node("lit", dfl[q]) if q in omitted else a for q, a in zip(f.params, args)]
+        if style == "record" and self.p.get("omit_defaults", True):
+            # (former finding C02-K12 — a pack that omits a defaulted parameter passed 0 / garbage for it — is repaired:
+            # defaulted parameters are left out at random, possibly all of them: `f({..})`)
+            omitted = [q for q in f.params if q in dfl and r.chance(1, 2)]
+        # the reference semantics gets the default's literal for an omitted parameter; no expression is generated for it
+        # (its `self` / `mem` / `delay` would be counted as state of the caller although the source does not contain them)
+        args = [Node("lit", dfl[q]) if q in omitted else self.simple(d - 1, ctx) for q in f.params]
+        if getattr(f, "rec", False):
+            args[0] = Node("lit", "%d.0" % r.below(4))          # recursion depth: a small literal
         return Node("call", f.name, args, self.new_site(), style, list(f.params), omitted)
 
     def cond(self, d, ctx):
@@ -683,8 +678,8 @@ class Gen:
                 # known finding G3 (VM reads a stale value after a closure assigned a captured variable): captured
                 # variables are read-only inside closures unless the profile asks for `closure_assign`
                 cap = ctx["vars"] if self.p.get("closure_assign", False) else [(n, t, False) for (n, t, _) in ctx["vars"]]
-                # finding C03-K11: assigning a FIELD of a captured record inside a closure panics the compiler
-                cap = [(n, t, m and not (isinstance(t, tuple) and t[0] == "r")) for (n, t, m) in cap]
+                # (former finding C03-K11 — assigning a FIELD of a captured record inside a closure panicked the compiler —
+                # is repaired: captured records are assignable under `closure_assign` like captured numbers)
                 lctx = dict(ctx, vars=cap + [(q, F, False) for q in ps], allow_state=False, self_type=None, in_lambda=True)
                 body = self.block(F, d - 1, lctx)
                 fname = self.fresh("f")
@@ -835,7 +830,8 @@ class Gen:
             ret = F if (r.chance(4, 5) or not self.p.get("tuples", True)) else T(F, F)
             stateful = r.chance(self.p.get("stateful_pct", 60), 100)
             self.fns.append(self.gen_fn(f"f{i}", r.below(3), ret, 1 + r.below(self.p.get("depth", 3)), stateful, genv))
-        nin = r.weighted([(0, 5), (1, 4)]) if self.p.get("inputs", True) else 0
+        # (former finding C03-K6 — a dsp with two parameters crashed at run time — is repaired: up to two input channels)
+        nin = r.weighted([(0, 5), (1, 4), (2, 2)]) if self.p.get("inputs", True) else 0
         ret = F if (r.chance(3, 4) or not self.p.get("tuples", True)) else T(F, F)
         if self.p.get("recursion", False) and r.chance(3, 4):
             self.fns.append(self.gen_rec_fn(f"f{len(self.fns)}r", genv))
@@ -1224,6 +1220,8 @@ def mutant(p, r):
         if new is None:
             continue
         body = replace_at(f.body, path, new)
+        if src(body) == src(f.body):
+            continue        # the node stands for an omitted default of a parameter pack: the source text does not contain it
         nf = f.with_body(body)
         if fi == len(p.fns):
             return name, Prog(p.globals, p.fns, nf)
